@@ -17,14 +17,63 @@ import (
 // The code -> spec direction of C09.  One trace is ONE run of the real
 // interpreter making many sprintf calls, drawn from a small pool of formats so
 // that the memoised format translation (interp.formatCache) is hit with
-// different argument kinds, and, in some traces, with more distinct formats
-// than the cache holds.  Every call is recorded with its result; Trace_Printf
-// lets TLC check each result against Printf.tla, so a translation that is
-// right for a fresh interpreter but wrong when served from the cache shows up.
+// different argument kinds (numbers, string constants, text read from input in
+// the provenance drawn for the trace, unset variables), and, in some traces,
+// with more distinct formats than the cache holds.  Between the calls the
+// program prints lines with `print` in the output mode drawn for the trace
+// (default, CSV, TSV; selected by Config.OutputMode or by OUTPUTMODE) while
+// OFMT and CONVFMT change.  Every call and every print is recorded with its
+// result; Trace_Printf lets TLC check each against Printf.tla, so a translation
+// that is right for a fresh interpreter but wrong when served from the cache,
+// or a print that takes the wrong format in some mode, shows up.
 
 type call struct {
 	fmt  []byte
 	args []c05.ValJ
+	// a print statement instead of a sprintf call
+	print       bool
+	of, cf, ofs []byte
+	set         string // assignments made just before the print (OFMT / CONVFMT / OFS)
+}
+
+var inputPool = []string{"65", " 42 ", "6.5e1", "-3.7", "0x1f", "12abc", "abc", "", "+7", ".5", "1e", "\xc3\xa9t", "3.0", "0.10"}
+var ofmtPool = []string{"%.6g", "%.2f", "%.3e", "%g", "%G", "%8.1f", "%.2f,", "%.10g", "%.0f", "%5.3g|", "%+.1e"}
+var convfmtPool = []string{"%.6g", "%.3e", "%.1f", "%.12g"}
+var printStrPool = []string{"", "a", "hello world", "a,b", " lead", "q\"q", "x\xc3\xa9", "12abc", "1e3"}
+
+func inputArg(r *rand.Rand) c05.ValJ {
+	return c05.ValJ{Tag: "strnum", S: hx.FromBytes([]byte(inputPool[r.Intn(len(inputPool))])), N: c05.NumJ{T: "fin", D: []int{}}}
+}
+
+// randPrint: one print statement; cur holds the OFMT / CONVFMT / OFS in force.
+func randPrint(r *rand.Rand, cur *call) call {
+	c := call{print: true}
+	if r.Intn(3) == 0 {
+		cur.of = []byte(ofmtPool[r.Intn(len(ofmtPool))])
+		c.set += "  OFMT = " + hx.AwkString(cur.of) + "\n"
+	}
+	if r.Intn(4) == 0 {
+		cur.cf = []byte(convfmtPool[r.Intn(len(convfmtPool))])
+		c.set += "  CONVFMT = " + hx.AwkString(cur.cf) + "\n"
+	}
+	if r.Intn(8) == 0 {
+		cur.ofs = []byte([]string{" ", "-", ", "}[r.Intn(3)])
+		c.set += "  OFS = " + hx.AwkString(cur.ofs) + "\n"
+	}
+	c.of, c.cf, c.ofs = cur.of, cur.cf, cur.ofs
+	for n := 1 + r.Intn(3); n > 0; n-- {
+		switch r.Intn(8) {
+		case 0:
+			c.args = append(c.args, c05.ValJ{Tag: "str", S: hx.FromBytes([]byte(printStrPool[r.Intn(len(printStrPool))])), N: c05.NumJ{T: "fin", D: []int{}}})
+		case 1:
+			c.args = append(c.args, inputArg(r))
+		case 2:
+			c.args = append(c.args, c05.ValJ{Tag: "null", S: hx.BS{}, N: c05.NumJ{T: "fin", D: []int{}}})
+		default:
+			c.args = append(c.args, c05.ValJ{Tag: "num", S: hx.BS{}, N: randNum(r)})
+		}
+	}
+	return c
 }
 
 func randNum(r *rand.Rand) c05.NumJ {
@@ -66,6 +115,9 @@ func randNum(r *rand.Rand) c05.NumJ {
 var strPool = []string{"", "a", "abc", "hello world", "12abc", "-3.5e2x", " 42 ", "\xc3\xa9t\xc3\xa9", "x\xc3\xa9", "A", "%d", "0x1f"}
 
 func randArg(r *rand.Rand, verb byte) c05.ValJ {
+	if r.Intn(4) == 0 {
+		return inputArg(r)
+	}
 	wantStr := r.Intn(5) == 0
 	if verb == 's' {
 		wantStr = r.Intn(3) != 0
@@ -186,7 +238,15 @@ func Record(seed int64, n int, out string) (int, error) {
 			}
 		}
 		var calls []call
+		mode := []string{"default", "default", "csv", "tsv"}[r.Intn(4)]
+		setter := []string{"config", "var"}[r.Intn(2)]
+		prov := provenances[r.Intn(len(provenances))]
+		cur := &call{of: []byte("%.6g"), cf: []byte("%.6g"), ofs: []byte(" ")}
 		for i := 0; i < ncalls; i++ {
+			if npool < 100 && i < ncalls-1 && r.Intn(4) == 0 {
+				calls = append(calls, randPrint(r, cur))
+				continue
+			}
 			it := pool[r.Intn(len(pool))]
 			if npool > 100 && i < npool {
 				it = pool[i]
@@ -200,27 +260,43 @@ func Record(seed int64, n int, out string) (int, error) {
 			if i == ncalls-1 && r.Intn(4) == 0 {
 				args = args[:len(args)-1] // too few arguments: a run-time error ends the run (last call only)
 			}
-			calls = append(calls, call{it.f, args})
+			calls = append(calls, call{fmt: it.f, args: args})
 		}
+		b := &binding{prov: prov}
+		cfg := &interp.Config{Chars: chars}
 		var sb strings.Builder
-		sb.WriteString("BEGIN {\n")
-		for _, c := range calls {
-			sb.WriteString("  printf \"%s\\001\", sprintf(" + hx.AwkString(c.fmt))
-			for i := range c.args {
-				sb.WriteString(", " + argExpr(&c.args[i]))
+		if mode != "default" {
+			if setter == "var" {
+				fmt.Fprintf(&sb, "  OUTPUTMODE = %q\n", mode)
+			} else if mode == "csv" {
+				cfg.OutputMode = interp.CSVMode
+			} else {
+				cfg.OutputMode = interp.TSVMode
 			}
-			sb.WriteString(")\n")
 		}
-		sb.WriteString("}\n")
-		res := hx.RunAwk(sb.String(), nil, &interp.Config{Chars: chars}, nil)
+		for _, c := range calls {
+			if c.print {
+				sb.WriteString(c.set)
+				sb.WriteString("  print " + strings.Join(b.add(c.args), ", ") + "\n  printf \"\\001\"\n")
+				continue
+			}
+			sb.WriteString("  printf \"%s\\001\", sprintf(" + hx.AwkString(c.fmt) + callArgs(b.add(c.args)) + ")\n")
+		}
+		src, stdin, vars := b.program(sb.String())
+		cfg.Vars = vars
+		res := hx.RunAwk(src, stdin, cfg, nil)
 		if res.Panic != nil || res.ParseErr != nil {
-			return count, fmt.Errorf("trace program failed: panic=%v parse=%v\n%s", res.Panic, res.ParseErr, sb.String())
+			return count, fmt.Errorf("trace program failed: panic=%v parse=%v\n%s", res.Panic, res.ParseErr, src)
 		}
 		outs := bytes.Split(res.Stdout, []byte{1})
 		outs = outs[:len(outs)-1]
 		emit(map[string]any{"ev": "reset"})
 		for i, c := range calls {
 			ev := map[string]any{"ev": "step", "fmt": hx.FromBytes(c.fmt), "args": c.args, "chars": chars, "k": i + 1}
+			if c.print {
+				ev = map[string]any{"ev": "print", "args": c.args, "of": hx.FromBytes(c.of), "cf": hx.FromBytes(c.cf), "mode": mode,
+					"ofs": hx.FromBytes(c.ofs), "k": i + 1}
+			}
 			if c.args == nil {
 				ev["args"] = []c05.ValJ{}
 			}
